@@ -119,7 +119,7 @@ pub async fn run_refs(cfg: RunCfg) -> RunResult {
             let ex = if existing.is_empty() { from_cluster.clone() } else { (*r.rng.pick(&existing)).clone() };
             let roll = r.rng.below(10);
             // deletions mostly target a branch that exists, creations mostly draw from the run's cluster
-            if (60..72).contains(&choice) && roll < 8 {
+            if (60..70).contains(&choice) && roll < 8 {
                 ex
             } else if roll < 8 {
                 from_cluster
@@ -203,7 +203,7 @@ pub async fn run_refs(cfg: RunCfg) -> RunResult {
                         }
                     }
                 }
-            } else if choice < 72 {
+            } else if choice < 70 {
                 // delete a branch
                 let mut desc = format!("delete_branch({:?})", new_branch);
                 let exists = refs.contains_key(&new_branch);
@@ -244,7 +244,49 @@ pub async fn run_refs(cfg: RunCfg) -> RunResult {
                     (Err(_), false) => {}
                 }
                 return Ok(desc);
-            } else if choice < 88 {
+            } else if choice < 78 {
+                // cleanup of old versions on one reference (maintenance on one branch must not change others)
+                let (lv, _) = { let (v, s) = refs[&pick_ref].latest(); (v, s.clone()) };
+                let ds = if pick_ref.is_empty() { main_ds.clone() } else { main_ds.checkout_branch(&pick_ref).await.map_err(|e| format!("checkout_branch {}: {}", pick_ref, e))? };
+                desc = format!("cleanup on {:?} (keep only v{} and tagged)", pick_ref, lv);
+                let mut pol = lance::dataset::cleanup::CleanupPolicyBuilder::default().error_if_tagged_old_versions(false).build();
+                pol.before_version = Some(lv);
+                match ds.cleanup_with_policy(pol).await {
+                    Ok(stats) => {
+                        if stats.old_versions > 0 {
+                            // A shallow clone keeps referring to its source location; the source's own cleanup
+                            // does not know about it (the property protects the source from the clone, not the
+                            // other way round): clones of this reference leave the model.
+                            let mut i = 0;
+                            while i < clones.len() {
+                                if clone_src[i] == pick_ref {
+                                    clones.remove(i);
+                                    clone_src.remove(i);
+                                } else {
+                                    i += 1;
+                                }
+                            }
+                            // the model forgets the removed versions of this reference (tagged ones stay)
+                            let keep: Vec<u64> = tags.iter().filter(|(_, (b, _))| *b == pick_ref).map(|(_, (_, v))| *v).collect();
+                            let remaining: Vec<u64> = match ds.versions().await {
+                                Ok(v) => v.iter().map(|x| x.version).collect(),
+                                Err(_) => vec![lv],
+                            };
+                            let m = refs.get_mut(&pick_ref).unwrap();
+                            let had: Vec<u64> = m.versions.keys().cloned().collect();
+                            for v in had {
+                                if !remaining.contains(&v) {
+                                    if keep.contains(&v) {
+                                        return Err(format!("VIOLATION C08 removed-unselected-version:tagged cleanup on {:?} removed tagged version {}", pick_ref, v));
+                                    }
+                                    m.versions.remove(&v);
+                                }
+                            }
+                        }
+                    }
+                    Err(e) => return Err(format!("VIOLATION C08 cleanup-error:{} cleanup on {:?} failed: {}", err_class(&e.to_string()), pick_ref, e)),
+                }
+            } else if choice < 90 {
                 // tag create / update / delete
                 let vers: Vec<u64> = refs[&pick_ref].versions.keys().cloned().collect();
                 let v = vers[(seed_v % vers.len() as u64) as usize];
